@@ -14,7 +14,7 @@ def run(ctx):
                               "by 2^k for k in {0,+-10,+-100}, with and without refinement; all six branches of the case analysis "
                               "(p=0, q=0, disc=0, disc<0, disc>0) are asserted present by TLC; non-trivial = not x^3",
                          nontrivial=lambda c: any(c["co"][1:]),
-                         sig=lambda b: ",".join(sorted(b["fails"])),
+                         sig=lambda f, b: f,
                          describe=describe,
                          assumptions=["root matching tolerance eps^(1/m) with margin: 1e-9 / 1e-6 / 1e-4 relative to the root scale",
                                       "refinement judged on residuals evaluated in long double with an 8-ulp noise floor"])
